@@ -15,7 +15,7 @@ func init() { engine.Register(c01{}) }
 
 func (c01) ID() string { return "C01" }
 
-const c01QuickPrograms = 2400
+const c01QuickPrograms = 20000
 
 func (c01) Budget(tier string) int {
 	if tier == "thorough" {
